@@ -39,6 +39,11 @@ func fnKey(fn *ssa.Function) string {
 
 func (x *Exec) intercept(fn *ssa.Function, args []Value, site ssa.Instruction) (Value, bool) {
 	name := fn.Name()
+	if name == "init" && fn.Pkg != nil && fn.Synthetic != "" && len(x.stack) > 0 {
+		// a package initializer called from another initializer: run it under the init policy (once, tolerant)
+		x.runInit(fn.Pkg)
+		return nil, true
+	}
 	if fn.Pkg != nil && len(name) > 1 && name[0] == 'v' && name[1] >= 'A' && name[1] <= 'Z' && fn.Signature.Recv() == nil {
 		if h, ok := preludeFns[name]; ok {
 			return h(x, fn, args), true
